@@ -110,9 +110,53 @@ def wrapped_leg(ctx):
     return rows
 
 
+def file_edit_leg(ctx):
+    """A task defined in a real source file whose body is edited IN PLACE (same file, same qualified name, same first line) and re-imported
+    in the same process: the hash must follow the body through every edit history (all sequences of <=3 edits over 4 bodies, two of equal length)."""
+    import importlib.util
+    import os
+
+    from engine import common
+
+    root = os.path.join(common.scratch_dir(), "c17-src")
+    os.makedirs(root, exist_ok=True)
+    path = os.path.join(root, "c17_edited_module.py")
+    bodies = ["x * 2", "x * 10", "x * 3", "x * 100 + 1"]
+    n = 0
+    clock = [2_000_000_000]
+
+    def load(body):
+        with open(path, "w") as f:
+            f.write(f"from redun import task\n\n\n@task(namespace='c17f')\ndef edited(x):\n    return {body}\n")
+        clock[0] += 10
+        os.utime(path, (clock[0], clock[0]))  # an edit always moves the modification time forward
+        spec = importlib.util.spec_from_file_location("c17_edited_module", path)
+        mod = importlib.util.module_from_spec(spec)
+        spec.loader.exec_module(mod)
+        return mod.edited
+
+    for k in (1, 2, 3):
+        for hist in itertools.product(range(len(bodies)), repeat=k):
+            seen = {}
+            for step, b in enumerate(hist):
+                t = load(bodies[b])
+                n += 1
+                if t.func(1) != eval(bodies[b], {"x": 1}):
+                    raise AssertionError("harness: module not reloaded")
+                for b2, h2 in seen.items():
+                    if (b2 == b) != (h2 == t.hash):
+                        kind = "edit-not-reflected-in-hash" if b2 != b else "same-body-different-hash"
+                        ctx.violation(f"file-edit:{kind}", {"history": [bodies[i] for i in hist[: step + 1]]},
+                                      f"task edited in place through bodies {[bodies[i] for i in hist[: step + 1]]}: body {bodies[b]!r} has hash {t.hash[:8]}, "
+                                      f"body {bodies[b2]!r} had {h2[:8]}")
+                seen[b] = t.hash
+    return n
+
+
 def run(ctx):
     from engine.common import check_harness_errors
 
+    n_edit = file_edit_leg(ctx)
     defs = list(itertools.product(NAMES, NSS, BODIES, VERSIONS, INCLUDES, DEF_OPTS, DECOS))
     # under a version the body is "don't care" for the statement: enumerate only body 0 there
     defs = [d for d in defs if not (d[3] is not None and d[2] != 0)]
@@ -147,7 +191,7 @@ def run(ctx):
             ctx.violation("hash-depends-on-irrelevant-detail", {"a": ex[(hh[0], ident)], "b": ex[(hh[1], ident)]},
                           f"same code identity, different hashes: {ex[(hh[0], ident)]}  vs  {ex[(hh[1], ident)]}")
     return {"coverage": {
-        "evaluations": len(rows),
+        "file_edit_loads": n_edit, "evaluations": len(rows),
         "distinct_nontrivial": len(by_ident),
         "distinct_hashes": len(by_hash),
         "exhaustive": True,
